@@ -48,11 +48,79 @@ func c07Collect(c *Ctx, p *Prog, m *Model) {
 		r.Unk("R07.1", "anchors", "-", "collectArgs/walkParentAttrs/fromCtx/argsToAttrs not all found")
 		return
 	}
-	var kv *ssa.Parameter
-	for _, q := range ca.Params {
-		if strings.HasPrefix(q.Type().String(), "*") && typeName(q.Type()) == "Attrs" {
-			kv = q
+	// The per-call attribute list is a "thread": either one *Attrs handed to every source in turn (out-pointer style)
+	// or an Attrs value that each source takes and returns extended (value style). Roles are found by type, not by
+	// position: the list parameter is the one of type Attrs / *Attrs, the walked logger the *Entry parameter (or the
+	// receiver when there is no other).
+	isAttrsT := func(t types.Type) bool { return typeName(t) == "Attrs" }
+	listParam := func(fn *ssa.Function) *ssa.Parameter {
+		for _, q := range fn.Params {
+			if isAttrsT(q.Type()) {
+				return q
+			}
 		}
+		return nil
+	}
+	kv := listParam(ca)
+	if kv == nil {
+		r.Unk("R07.1", "anchors", p.FuncPos(ca), "collectArgs has no attribute-list parameter")
+		return
+	}
+	// thread membership along a walked path
+	newThread := func(root ssa.Value) map[ssa.Value]bool { return map[ssa.Value]bool{root: true} }
+	inThread := func(th map[ssa.Value]bool, v ssa.Value, path []*ssa.BasicBlock) bool {
+		v = resolveAlong(v, path)
+		if th[v] || th[strip(v)] {
+			return true
+		}
+		// the address of a local that holds the thread (argsToAttrs(&kvps, ...)), or a load of such a local
+		probe := v
+		if u, ok := v.(*ssa.UnOp); ok && u.Op == token.MUL {
+			probe = u.X
+		}
+		if al, ok := probe.(*ssa.Alloc); ok {
+			for _, ref := range *al.Referrers() {
+				if st, ok := ref.(*ssa.Store); ok && st.Addr == ssa.Value(al) && (th[st.Val] || th[strip(st.Val)]) {
+					return true
+				}
+			}
+		}
+		// a load through the out-pointer
+		if u, ok := v.(*ssa.UnOp); ok && u.Op == token.MUL && th[u.X] {
+			return true
+		}
+		return false
+	}
+	onThread := func(th map[ssa.Value]bool, cs ssa.CallInstruction, path []*ssa.BasicBlock) bool {
+		for _, a := range cs.Common().Args {
+			if (isAttrsT(a.Type())) && inThread(th, a, path) {
+				return true
+			}
+		}
+		return false
+	}
+	extend := func(th map[ssa.Value]bool, cs ssa.CallInstruction) {
+		if v := cs.Value(); v != nil && isAttrsT(v.Type()) {
+			th[v] = true
+			// and locals it is stored into
+			for _, ref := range *v.Referrers() {
+				if st, ok := ref.(*ssa.Store); ok && st.Val == ssa.Value(v) {
+					th[st.Addr] = true
+				}
+				if ph, ok := ref.(*ssa.Phi); ok {
+					th[ph] = true
+				}
+			}
+		}
+	}
+	entryArgs := func(cs ssa.CallInstruction) []ssa.Value {
+		var out []ssa.Value
+		for _, a := range cs.Common().Args {
+			if typeName(a.Type()) == "Entry" {
+				out = append(out, a)
+			}
+		}
+		return out
 	}
 	lattrsR, _ := p.ConstInt(p.Slog, "LattrsR")
 	flagAtom := func(cond ssa.Value) bool {
@@ -112,23 +180,39 @@ func c07Collect(c *Ctx, p *Prog, m *Model) {
 			r.Bad("R07.2", key, p.FuncPos(ca), "attribute collection depends on a condition outside {context keys wanted, own attrs, inherit flag, call has args}: %s", t.Kind)
 			continue
 		}
+		th := newThread(kv)
 		var seq []string
 		for _, cs := range t.Calls {
 			switch calleeOf(cs) {
 			case fc:
-				if cs.Common().Args[2] == ssa.Value(kv) {
+				if onThread(th, cs, t.Path) {
 					seq = append(seq, "ctx")
+					extend(th, cs)
 				}
 			case wp:
-				if cs.Common().Args[len(cs.Common().Args)-1] == ssa.Value(kv) && cs.Common().Args[3] == ssa.Value(receiver(ca)) {
+				good := onThread(th, cs, t.Path)
+				for _, ea := range entryArgs(cs) {
+					if ea != ssa.Value(receiver(ca)) {
+						good = false
+					}
+				}
+				if good {
 					seq = append(seq, "chain")
+					extend(th, cs)
 				} else {
 					seq = append(seq, "chain(wrong start or slice)")
 				}
 			case a2a:
-				if cs.Common().Args[0] == ssa.Value(kv) {
+				if onThread(th, cs, t.Path) {
 					seq = append(seq, "args")
+					extend(th, cs)
 				}
+			}
+		}
+		// value style: what is returned is the thread
+		if ret, ok := t.Instr.(*ssa.Return); ok && len(ret.Results) == 1 && isAttrsT(ret.Results[0].Type()) {
+			if !inThread(th, ret.Results[0], t.Path) {
+				seq = append(seq, "returns(another list)")
 			}
 		}
 		var want []string
@@ -146,11 +230,20 @@ func c07Collect(c *Ctx, p *Prog, m *Model) {
 	r.Ok("R07.1", "order:collectArgs", p.FuncPos(ca), "on every assignment the sources are appended in the order context, logger chain, call arguments (obligations under R07.2)")
 
 	// --- walkParentAttrs
-	if len(wp.Params) != 5 {
+	kv2 := listParam(wp)
+	var e *ssa.Parameter
+	for _, q := range wp.Params {
+		if typeName(q.Type()) == "Entry" && q != receiver(wp) {
+			e = q
+		}
+	}
+	if e == nil {
+		e = receiver(wp)
+	}
+	if kv2 == nil || e == nil {
 		r.Unk("R07.2", "walkParentAttrs", p.FuncPos(wp), "unexpected signature")
 		return
 	}
-	e, kv2 := wp.Params[3], wp.Params[4]
 	atomWP := func(cond ssa.Value) (string, bool) {
 		if flagAtom(cond) {
 			return "flag", true
@@ -203,37 +296,59 @@ func c07Collect(c *Ctx, p *Prog, m *Model) {
 			r.Bad("R07.2", key, p.FuncPos(wp), "the ancestor walk depends on a condition outside {e==nil, own list empty, inherit flag, owner != nil}: %s", t.Kind)
 			continue
 		}
+		th := newThread(kv2)
 		var ev []string
 		for _, b := range t.Path {
 			for _, in := range b.Instrs {
 				switch x := in.(type) {
 				case ssa.CallInstruction:
 					if calleeOf(x) == wp {
-						if bb, ok := isFieldLoadOf(x.Common().Args[3], "Entry", "owner"); ok && bb == ssa.Value(e) && x.Common().Args[4] == ssa.Value(kv2) {
+						good := onThread(th, x, t.Path)
+						walked := false
+						for _, ea := range entryArgs(x) {
+							if bb, ok := isFieldLoadOf(ea, "Entry", "owner"); ok && bb == ssa.Value(e) {
+								walked = true
+							} else if ea != ssa.Value(receiver(wp)) || e == receiver(wp) {
+								good = false
+							}
+						}
+						if good && walked {
 							ev = append(ev, "ancestors")
+							extend(th, x)
 						} else {
 							ev = append(ev, "recursion(on something else)")
+						}
+					} else if call, ok := x.(*ssa.Call); ok && isBuiltinCall(call, "append") && isAttrsT(call.Type()) {
+						// value style: kvps = append(kvps, e.attrs...)
+						if inThread(th, call.Common().Args[0], t.Path) {
+							if bb, ok := isFieldLoadOf(call.Common().Args[1], "Entry", "attrs"); ok && bb == ssa.Value(e) {
+								// counted when it becomes the thread (returned or stored through the out-pointer)
+								th[call] = true
+								for _, ref := range *call.Referrers() {
+									if st, ok := ref.(*ssa.Store); ok && st.Addr == ssa.Value(kv2) {
+										_ = st
+									} else if _, isRet := ref.(*ssa.Return); isRet || true {
+										_ = ref
+									}
+								}
+								ev = append(ev, "own")
+							} else {
+								ev = append(ev, "store(other)")
+							}
 						}
 					}
 				case *ssa.Store:
 					if x.Addr == ssa.Value(kv2) {
-						call, ok := x.Val.(*ssa.Call)
-						good := ok && isBuiltinCall(call, "append")
-						if good {
-							if u, ok := call.Common().Args[0].(*ssa.UnOp); !ok || u.X != ssa.Value(kv2) {
-								good = false
-							}
-							if bb, ok := isFieldLoadOf(call.Common().Args[1], "Entry", "attrs"); !ok || bb != ssa.Value(e) {
-								good = false
-							}
-						}
-						if good {
-							ev = append(ev, "own")
-						} else {
+						if call, ok := x.Val.(*ssa.Call); !ok || !th[call] {
 							ev = append(ev, "store(other)")
 						}
 					}
 				}
+			}
+		}
+		if ret, ok := t.Instr.(*ssa.Return); ok && len(ret.Results) == 1 && isAttrsT(ret.Results[0].Type()) {
+			if !inThread(th, ret.Results[0], t.Path) {
+				ev = append(ev, "returns(another list)")
 			}
 		}
 		var want []string
@@ -344,12 +459,15 @@ func c07Collect(c *Ctx, p *Prog, m *Model) {
 		nAppend := 0
 		for _, b := range fc.Blocks {
 			for _, in := range b.Instrs {
-				if st, ok := in.(*ssa.Store); ok && st.Addr == ssa.Value(fc.Params[2]) {
+				if st, ok := in.(*ssa.Store); ok && listParam(fc) != nil && st.Addr == ssa.Value(listParam(fc)) {
 					nAppend++
 					call, ok := st.Val.(*ssa.Call)
 					if !ok || !isBuiltinCall(call, "append") {
 						probs = append(probs, "stores something other than an append to the slice")
 					}
+				}
+				if call, ok := in.(*ssa.Call); ok && isBuiltinCall(call, "append") && isAttrsT(call.Type()) && listParam(fc) != nil && !strings.HasPrefix(listParam(fc).Type().String(), "*") {
+					nAppend++ // value style: kvps = append(kvps, ...)
 				}
 			}
 		}
